@@ -149,17 +149,37 @@ def conf_trees(texts):
     return clist(cjson(json.loads(t, object_pairs_hook=lambda p: O(p))) for t in texts)
 
 
+K9_TAG = "c05-rollback-delete-fails"
+
+
 def monitors(steps, focus):
     """Coq boolean expressions over the implementation's own dumps; returns list of (expr, step index, kind)"""
     out = []
     conf = None          # texts of the configuration in force (last successful configure/restart)
     prev = None
+    orphans = {}         # K9: ip -> key of an object whose deletion by a roll-back failed (it stays in the store)
+
+    def without_orphans(dd):
+        """the dump as it would be had the roll-back's deletions succeeded: orphan objects out of the store, and - once a new
+        process has loaded them - out of the tables"""
+        dd = dict(dd)
+        dd["store"] = [e for e in dd["store"] if not (e[0] in orphans and e[1] == orphans[e[0]])]
+        gone = [e[0] for e in dd["alloc"] if e[0] in orphans and e[1] == orphans[e[0]] and not any(e[0] == s_[0] for s_ in dd["store"])]
+        dd["alloc"] = [e for e in dd["alloc"] if e[0] not in gone]
+        dd["unalloc"] = sorted(set(dd["unalloc"]) | set(gone))
+        return dd
     for i, o in enumerate(steps):
         ex = o.get("exec") or {}
         if "dump" not in o:
             break
         d = o["dump"]
         k = ex.get("op")
+        if k == "alloc_ranges" and o.get("res") != "ok":
+            for c in (o.get("calls") or []):
+                if c[0] == "delete" and c[2]:
+                    orphans[ipamgen.s2ip(c[1])] = ex.get("key")
+        for ip_ in [x for x in orphans if not any(e[0] == x and e[1] == orphans[x] for e in d["store"])]:
+            del orphans[ip_]          # the object is gone (released, deleted by a reload): no longer an orphan
         if k in ("configure", "restart") and o.get("res") == "ok":
             newconf = ex.get("pools")
             if focus in ("C09",) and k == "configure" and prev is not None and not o.get("nested"):
@@ -167,11 +187,17 @@ def monitors(steps, focus):
                 out.append(("(mon_reload %s %s %s %s)" % (conf_trees(newconf), clist(cN(x) for x in delfail), cdump(prev), cdump(d)),
                             i, "reload_lossless"))
             if focus == "C05" and k == "restart" and prev is not None and not prev.get("pending") and conf == newconf:
-                out.append(("(same_tables %s %s)" % (cdump(prev), cdump(d)), i, "restart_exact"))
+                if orphans:
+                    out.append(("(same_tables %s %s)" % (cdump(without_orphans(prev)), cdump(without_orphans(d))), i, "restart_exact"))
+                out.append(("(same_tables %s %s)" % (cdump(prev), cdump(d)), i, "restart_exact", [K9_TAG] if orphans else []))
             conf = newconf
         if conf is not None and focus in ("C05", "C09"):
+            if orphans:
+                # a failure that disappears when the orphan objects are taken out is K9 and nothing else
+                out.append(("(mon_agree %s %s %s)" % (conf_trees(conf), clist(cN(x) for x in d.get("pending", [])), cdump(without_orphans(d))), i,
+                            "agree"))
             out.append(("(mon_agree %s %s %s)" % (conf_trees(conf), clist(cN(x) for x in d.get("pending", [])), cdump(d)), i,
-                        "agree"))
+                        "agree", [K9_TAG] if orphans else []))
         # (the property quantifies over the failure of any SINGLE object creation: a request in which a creation failed AND a
         #  deletion of the roll-back failed as well - an unseen reservation's conflict plus an injected fault - is outside it;
         #  what the code does then is still compared with the model step by step)
@@ -289,9 +315,10 @@ def run(ctx, focus, theorems_module, theorems, refuted, kinds=None, nrandom=(120
         if trunc:
             ctx.dist("history-truncated:" + trunc)
         corr.append("(chk_hist %s)" % term)
-        for e, si, kind in monitors(steps, focus):
+        for m_ in monitors(steps, focus):
+            e, si, kind = m_[:3]
             mons.append(e)
-            monmeta.append((hi, si, kind))
+            monmeta.append((hi, si, kind, m_[3] if len(m_) > 3 else []))
         if len(ctx.cov["samples"]) < 3 and labels[hi] == "random":
             ctx.sample({"history": strip(h)["ops"][:6], "first_observed_steps": [{k: v for k, v in s.items() if k != "dump"} for s in steps[:3]]})
     ctx.cov["traces_validated_against_impl"] = len(corr)
@@ -304,16 +331,22 @@ def run(ctx, focus, theorems_module, theorems, refuted, kinds=None, nrandom=(120
     ctx.cov["monitor_evaluations"] = len(mons)
     bad_m = [monmeta[k] for k, b in enumerate(rm) if not b]
     seen = set()
-    for hi, si, kind in bad_m:
-        if (hi, kind) in seen:
+    bad_m.sort(key=lambda m_: 1 if m_[3] else 0)          # failures without a known-finding tag first
+    ntag = 0
+    for hi, si, kind, tags in bad_m:
+        if (hi, kind, bool(tags)) in seen or (tags and (hi, kind, False) in seen):
             continue
-        seen.add((hi, kind))
+        if tags:
+            ntag += 1
+            if ntag > 3:
+                continue
+        seen.add((hi, kind, bool(tags)))
         st = obs[hi]["steps"]
         ctx.violation("monitor", "%s: predicate '%s' is false on the implementation's state after step %d (%s) [%s]" % (
             focus, kind, si, (st[si].get("exec") or {}).get("op"), labels[hi]),
             {"history": strip(hists[hi]), "failing_step": si, "observed_steps": [{k: v for k, v in s.items()} for s in st[:si + 1]][-3:],
-             "how": "bin/check %s --replay <this file>" % focus}, found=True)
-        if len(seen) >= 10:
+             "how": "bin/check %s --replay <this file>" % focus}, found=True, tags=tags)
+        if len(seen) >= 12:
             break
     bad_c = [k for k, b in enumerate(rc) if not b]
     ctx.cov["disagreements"] = len(bad_c)
